@@ -22,6 +22,16 @@ CHECKS['C20'] = dict(level=MC, ref='4 C20',
          'over 3 labels up to 2x3/3x2 (+2-label 3x3, 2x4) quick; over 4 labels up to 3x3, 2x4, 4x2 (+2-label 4x4, 3-label 3x4) thorough; window [-N,2N)^2; store depth 3/4 with 2 objects on 6 geometries. '
          'Cylinder wrap-around bonds are exempt from fermionic ordering (impossible for any total order).',
     technique='TLA+ spec (Lattice, LatticeStore) + TLC exhaustive model checking + trace validation of observed tables (I->S) + one implementation test per spec transition (S->I)')
+CHECKS['C13'] = dict(level=MC, ref='4 C13',
+    text='Truncation.tla transcribes the selection rule as a two-stage nondeterministic relation on integer spectra (ties are the only freedom). TLC explores every '
+         '(spectrum, options) of the bound through both stages and checks limits / top-per-block / top-global / maximality / ties-only / non-binding / weight on every reachable '
+         'mask. Each input is then one call of the real truncation_mask; TLC (TraceTruncation) accepts iff the returned mask is in Admissible(sp, o), inferring the hidden stage-1 '
+         'survivors. svd_with_truncation / eigh_with_truncation run on operands with prescribed integer spectra (complex, rank-3, non-zero charge, sU/nU variants): kept spectrum '
+         'per sector and squared error must be an admissible outcome.',
+    note='bounded: <=2 sectors x <=3 values in 0..2 (quick) / 0..3 + 3 sectors + unsorted (thorough); D_total in {0,1,2,3,5,inf}, D_block scalar {0,1,2,inf} or dict with missing keys, '
+         'tol/tol_block in {0,1/3,1/2,1} scalar or dict. Decompositions: spectra without exact zeros and tolerances off exact boundaries (float round-off decides there); '
+         'error equality observed at 1e-6 on integers. truncate_multiplets / mask_f not modelled yet.',
+    technique='TLA+ spec (Truncation) + TLC exhaustive model checking + trace validation: one implementation test per spec input, membership in the admissible set decided by TLC')
 NA = {}
 m = {"version": 1, "setup_cmd": "true",
      "hooks": {"guard": "YASTN_VERIF", "enable": "no source hooks so far: the harness wraps the public API from outside and imports yastn live from /repo (override: VERIF_REPO)",
